@@ -126,9 +126,10 @@ def native_lib(primary, support=(), flags=(), extra_c='', name=None, expose_stat
             if expose_static:
                 txt = re.sub(r'^define internal ', 'define ', txt, flags=re.M)
             txt = redirect_calls(txt, redirect)
-            if hook_atomics == 'points':
+            if hook_atomics in ('points', 'stores'):
                 # stall-injection replay: a hook runs before every atomic access of the translation unit (it may delay the calling thread)
-                txt, nh = re.subn(r'^(\s+)((?:%[\w.]+ = )?(?:load atomic|atomicrmw|cmpxchg)\b|store atomic\b)', r'\1call void @vf_atomic_point()\n\1\2', txt, flags=re.M)
+                pat = r'^(\s+)((?:%[\w.]+ = )?(?:load atomic|atomicrmw|cmpxchg)\b|store atomic\b)' if hook_atomics == 'points' else r'^(\s+)((?:%[\w.]+ = )?(?:load atomic|atomicrmw|cmpxchg)\b|store\b)'
+                txt, nh = re.subn(pat, r'\1call void @vf_atomic_point()\n\1\2', txt, flags=re.M)
                 if nh and 'declare void @vf_atomic_point()' not in txt and 'define void @vf_atomic_point()' not in txt and not re.search(r'define [^\n]*@vf_atomic_point\(', txt): txt += '\ndeclare void @vf_atomic_point()\n'
             elif hook_atomics:
                 # controlled-scheduler replay: every 64-bit atomic fetch-add goes through a hook that may run another thread's code first
